@@ -104,6 +104,6 @@ def gen_joint(rng, profile="general"):
     case["data"]["T"] = Ts
     case["container"] = ["list", "list", "tuple", "generator"][int(rng.integers(0, 4))]
     b = case["beta"]
-    if b["form"].startswith("vector"):
+    if b["form"].startswith("vector") and profile != "joint_vector":
         case["beta"] = dict(form="float", value=float(b["value"]))
     return case
